@@ -267,6 +267,15 @@ pub fn spmat_ops_small(s: &mut Src) -> R {
     ob!(a.is_zero() == da.iter().all(|r| r.iter().all(|&x| x == 0)), "SpMat::is_zero(explicit-zeros)");
     ob!(a.is_id() == (m == n && (0..m).all(|i| (0..n).all(|j| da[i][j] == if i == j { 1 } else { 0 }))), "SpMat::is_id(explicit-zeros)");
     for j in 0..n { let v = a.col_vec(j).to_dense(); ob!((0..m).all(|i| v[i] == da[i][j]), "SpMat::col_vec"); }
+    {
+        use yui_matrix::sparse::triang::TriangularType;
+        let up = m == n && (0..m).all(|i| (0..n).all(|j| i <= j || da[i][j] == 0));
+        let lo = m == n && (0..m).all(|i| (0..n).all(|j| i >= j || da[i][j] == 0));
+        ob!(a.is_triang(TriangularType::Upper) == up && a.is_triang(TriangularType::Lower) == lo, "SpMat::is_triang(explicit-zeros)");
+        ob!(a.nnz() == a.iter().count() && a.iter_nz().count() == da.iter().flatten().filter(|&&x| x != 0).count(), "SpMat::nnz/iter_nz");
+        let cols: Vec<_> = (0..n).map(|j| a.col_vec(j)).collect();
+        ob!(same(&SpMat::from_col_vecs(m, cols), &da, m, n), "SpMat::from_col_vecs(col_vec)==id");
+    }
     Ok(())
 }
 // C13: SpVec and the dense Mat against references computed here.  SpVec: From<Vec>, to_dense / into_vec, unit, zero, is_zero, + - neg,
